@@ -301,6 +301,7 @@ func c02(r *Report) {
 	})
 
 	r.Guard("C02.R5", "skip-round-trip causes zero upstream contact and a 200 bound to the request", func() {
+		contextFlagRules(r, "SkipRoundTrip", "SkippingRoundTrip")
 		rts := calls(rt, "(net/http.RoundTripper).RoundTrip")
 		skips := plainCalls(rt, "(*M.Context).SkippingRoundTrip")
 		if len(rts) != 1 || len(skips) != 1 {
